@@ -10,6 +10,7 @@
 import Absnfs.ServerDir
 import Absnfs.ServerDirPlus
 import Absnfs.ServerListing
+import Absnfs.ServerDcSup
 import Gen.Facts
 open Absnfs Absnfs.Server
 
@@ -186,5 +187,31 @@ theorem readdir_reply_lists_the_directory (s0 : St) (rs : List Req) (h0 : CInv s
     ents.map (·.name) =
       ((Fs.sortByName (Fs.children (runReqs s0 rs).fs (fsPath n.path))).map (·.1)).filter (listable n.path) :=
   procReaddir_cold_whole _ s' c args a verf ents (runReqs_cinv s0 rs h0) hd r1 r2 n hfh hck hn hcold e hwalk hk h
+
+/-- the same call whatever the directory cache holds — any state reached by any history from a server whose directory
+    cache started empty, any TTL / capacity / max-dir-size: the hypothesis "the cache is cold" of
+    `readdir_reply_lists_the_directory` is not needed. A reply from cookie 0 answered NFS3_OK with eof carries exactly
+    the names of the backend's directory that the listing loop accepts, in name order. -/
+theorem readdir_reply_lists_the_directory_warm (s0 : St) (rs : List Req) (h0 : CInv s0) (hS0 : DcSup s0) (s' : St) (c : Ctx)
+    (args : Bytes) (a : Option Rfc.Fattr) (verf : Bytes) (ents : List Rfc.DirEnt) (hd : Nat) (r1 r2 : Bytes) (n : Node)
+    (hfh : decFh' (runReqs s0 rs) args = some (hd, r1)) (hck : decU64 r1 = some (0, r2))
+    (hn : nodeOf (runReqs s0 rs) hd = some n)
+    (h : procReaddir (runReqs s0 rs) c args = (s', .res ⟨0, .readdirOk a verf ents true⟩)) :
+    ents.map (·.name) =
+      ((Fs.sortByName (Fs.children (runReqs s0 rs).fs (fsPath n.path))).map (·.1)).filter (listable n.path) :=
+  procReaddir_whole _ s' c args a verf ents (runReqs_cinv s0 rs h0) (runReqs_dcSup s0 rs h0 hS0) hd r1 r2 n hfh hck hn h
+
+/-- a corollary in membership form: the same call when the directory cache *does* hold a listing (any state reached by any history from a server whose
+    directory cache started empty): a reply from cookie 0 answered NFS3_OK with eof names every object the backend has
+    directly below the directory whose name the listing loop accepts. -/
+theorem readdir_reply_misses_nothing (s0 : St) (rs : List Req) (h0 : CInv s0) (hS0 : DcSup s0) (s' : St) (c : Ctx)
+    (args : Bytes) (a : Option Rfc.Fattr) (verf : Bytes) (ents : List Rfc.DirEnt) (hd : Nat) (r1 r2 : Bytes) (n : Node)
+    (hfh : decFh' (runReqs s0 rs) args = some (hd, r1)) (hck : decU64 r1 = some (0, r2))
+    (hn : nodeOf (runReqs s0 rs) hd = some n)
+    (h : procReaddir (runReqs s0 rs) c args = (s', .res ⟨0, .readdirOk a verf ents true⟩)) (x : Bytes)
+    (hl : listable n.path x = true) (i : Fs.Info) (hx : Fs.lstat (runReqs s0 rs).fs (fsPath n.path ++ [x]) = .ok i) :
+    x ∈ ents.map (·.name) :=
+  procReaddir_whole_complete _ s' c args a verf ents (runReqs_cinv s0 rs h0) (runReqs_dcSup s0 rs h0 hS0) hd r1 r2 n
+    hfh hck hn h x hl (existsAt_of_lstat hx)
 
 end Props.C26
